@@ -364,11 +364,51 @@ fn c09_layout(tier: Tier) -> Vec<(usize, u64, u64)> {
         .collect()
 }
 
+const C09_WIDE: u64 = 8;
+
 fn c09_count(tier: Tier) -> u64 {
-    c09_layout(tier).iter().map(|(_, s, m)| s * m).sum()
+    c09_layout(tier).iter().map(|(_, s, m)| s * m).sum::<u64>() + C09_WIDE
+}
+
+/// long method lists: a repeated name / code / the first code-less method far down the list
+fn c09_wide(k: u64) -> (ProjectM, String) {
+    let n = [255usize, 256, 257, 300][(k % 4) as usize];
+    let variant = k / 4;
+    let mut members = Vec::new();
+    for i in 0..n {
+        let nm = if i == n - 1 && variant == 0 { "m0".to_owned() } else { format!("m{i}") };
+        let code = if variant == 1 && i == n - 1 { Some("5".to_owned()) } else { Some(format!("{i}")) };
+        members.push(IMemberM::Method(MethodM {
+            annos: vec![],
+            oneway: false,
+            ret: TyM::Void,
+            name: nm,
+            args: vec![],
+            trailing_comma: false,
+            code,
+        }));
+    }
+    if variant == 1 {
+        members.push(IMemberM::Method(simple_method("last", false, TyM::Void, vec![], None)));
+    }
+    (
+        ProjectM {
+            files: vec![observed(ItemM::Interface(InterfaceM {
+                annos: vec![],
+                oneway: false,
+                name: "T".into(),
+                members,
+            }))],
+        },
+        format!("wide method list n={n} variant={variant}"),
+    )
 }
 
 fn c09_case(tier: Tier, mut idx: u64) -> (ProjectM, String) {
+    let main: u64 = c09_layout(tier).iter().map(|(_, s, m)| s * m).sum();
+    if idx >= main {
+        return c09_wide(idx - main);
+    }
     for (l, seqs, masks) in c09_layout(tier) {
         let n = seqs * masks;
         if idx >= n {
